@@ -19,13 +19,14 @@ RULE = ("PCBO / PCSO models: objective over 2-4 variables (dyadic coefficients, 
 TIERS = {"quick": {"shards": 8, "cases": 90}, "thorough": {"shards": 16, "cases": 3000}}
 FLOOR_BASE = {"quick": 60, "thorough": 1500}    # case counts the floors below were calibrated for; the launcher scales them
 FORMS = ["self", "pubo", "puso", "qubo", "quso"]
+LABEL_FLAG = {"last": False}
 
 
 def FLOORS(tier):
     q = tier == "quick"
     f = {"argmin-rows-decoded": 1500 if q else 60000, ">=2-constraints-and-reduction-ancilla": 50 if q else 1500,
          "solve_bruteforce-calls": 150 if q else 5000, "readme-family": 15 if q else 400, "class:PCBO": 100, "class:PCSO": 100,
-         "logical-constraint": 40, "remove_ancilla-checks": 1500}
+         "logical-constraint": 40, "remove_ancilla-checks": 1500, "label-containing-__a-inside": 40}
     for fo in FORMS:
         f["form:" + fo] = 100 if q else 4000
     return f
@@ -40,6 +41,13 @@ def build(rng):
         return readme_family(rng)
     n = rng.randint(2, 4)
     labs = [x for x in gen.labels(rng, n)]
+    if rng.random() < 0.2:
+        # user labels may contain the ancilla prefix anywhere but at the start
+        first = rng.choice(["rack__a", "x__a1", ("__a", 1), "my__a0"])
+        labs = [first] + (["u%d" % i for i in range(1, n)] if isinstance(first, str) else [("u", i) for i in range(1, n)])
+        LABEL_FLAG["last"] = True
+    else:
+        LABEL_FLAG["last"] = False
     fterms = gen.rand_terms(rng, labs, min(3, n), coefs=[-3, -2, -1, 1, 2, 3, 0.5, -1.5], lo=1, hi=5)
     f = ref.from_raw(kind, fterms)
     order = list(labs)
@@ -135,6 +143,8 @@ def case(ctx, rng, idx):
     H, kind, f, rels, desc, order = built
     T = type(H)
     ctx.cat("class:" + T.__name__)
+    if LABEL_FLAG["last"] and desc[0][0] != "readme":
+        ctx.cat("label-containing-__a-inside")
     if desc[0][0] == "readme":
         ctx.cat("readme-family")
     if any(d[0].startswith("add_constraint_") and not d[0].endswith("_zero") for d in desc):
